@@ -62,6 +62,39 @@ type Term struct {
 	// constTree: term is a constant or an ite whose leaves are all constTree
 	constTree bool
 	size      int32
+	// support: the variables the term depends on (at most 2 are tracked; many=true beyond that)
+	supp [2]*Term
+	nsup uint8
+	many bool
+}
+
+func (t *Term) addSupp(v *Term) {
+	if t.many {
+		return
+	}
+	for i := 0; i < int(t.nsup); i++ {
+		if t.supp[i] == v {
+			return
+		}
+	}
+	if t.nsup == 2 {
+		t.many = true
+		return
+	}
+	t.supp[t.nsup] = v
+	t.nsup++
+}
+
+// SingleSmallVar returns the only variable t depends on if that variable is at most 8 bits wide.
+func (t *Term) SingleSmallVar() *Term {
+	if t.many || t.nsup != 1 {
+		return nil
+	}
+	v := t.supp[0]
+	if v.W == 0 || v.W > 8 {
+		return nil
+	}
+	return v
 }
 
 func (t *Term) IsConst() bool { return t.Op == OpConst }
@@ -112,6 +145,19 @@ func (c *TermCtx) mk(op Op, w uint8, a, b, d *Term, k uint64, name string) *Term
 		t.constTree = true
 	case OpIte:
 		t.constTree = b.constTree && d.constTree
+	case OpVar:
+		t.supp[0] = t
+		t.nsup = 1
+	}
+	for _, x := range t.A {
+		if x != nil {
+			if x.many {
+				t.many = true
+			}
+			for i := 0; i < int(x.nsup); i++ {
+				t.addSupp(x.supp[i])
+			}
+		}
 	}
 	c.tab[key] = t
 	return t
